@@ -316,6 +316,12 @@ resetConnection(CS104_Connection self)
     self->oldestSentASDU = -1;
     self->newestSentASDU = -1;
 
+    /* the APCI parameters may have been changed since the last connection: the k-buffer has to match the current k */
+    if ((self->sentASDUs != NULL) && (self->maxSentASDUs != self->parameters.k)) {
+        GLOBAL_FREEMEM(self->sentASDUs);
+        self->sentASDUs = NULL;
+    }
+
     if (self->sentASDUs == NULL) {
         self->maxSentASDUs = self->parameters.k;
         self->sentASDUs = (SentASDU*) GLOBAL_MALLOC(sizeof(SentASDU) * self->maxSentASDUs);
